@@ -1970,3 +1970,40 @@ pub proof fn lemma_strict_lax_dagger<O: Clone, A: Clone>(l: OpenHypergraph<O, A>
     phi
 }
 ''')
+
+raw(r'''
+/// C10, second sentence, singleton: the strictified lax singleton is the strict singleton renumbered by a node bijection
+/// (the two postconditions describe the same data; corollary of lemma_roundtrip_open)
+pub proof fn lemma_strict_lax_singleton<O: Clone, A: Clone>(l: OpenHypergraph<O, A>, r: crate::open_hypergraph::OpenHypergraph<O, A>, s: crate::open_hypergraph::OpenHypergraph<O, A>,
+        x: A, a: Seq<O>, b: Seq<O>) -> (phi: Seq<usize>)
+    requires r.wf(), lawful_clone::<O>(), lawful_clone::<A>(),
+        // the postcondition of the strict singleton
+        r.h.x@.len() == 1 && r.h.x@[0] == x && r.h.w@ == a + b
+            && r.h.s.sources.table@ =~= seq![a.len() as usize] && r.h.t.sources.table@ =~= seq![b.len() as usize]
+            && r.s.table@.len() == a.len() && (forall|i: int| 0 <= i < a.len() ==> (#[trigger] r.s.table@[i]) == i) && (forall|i: int| 0 <= i < a.len() ==> (#[trigger] r.h.s.values.table@[i]) == i)
+            && r.t.table@.len() == b.len() && (forall|i: int| 0 <= i < b.len() ==> (#[trigger] r.t.table@[i]) == a.len() + i) && (forall|i: int| 0 <= i < b.len() ==> (#[trigger] r.h.t.values.table@[i]) == a.len() + i)
+            && r.h.s.values.table@.len() == a.len() && r.h.t.values.table@.len() == b.len(),
+        // the postcondition of the lax singleton
+        l.hypergraph.nodes@ =~= a + b && l.hypergraph.edges@ =~= seq![x] && l.hypergraph.adjacency@.len() == 1
+            && l.hypergraph.quotient.0@.len() == 0 && l.hypergraph.quotient.1@.len() == 0
+            && l.sources@.len() == a.len() && (forall|i: int| 0 <= i < a.len() ==> (#[trigger] l.sources@[i]).0 == i)
+            && l.targets@.len() == b.len() && (forall|i: int| 0 <= i < b.len() ==> (#[trigger] l.targets@[i]).0 == a.len() + i)
+            && l.hypergraph.adjacency@[0].sources@ == l.sources@ && l.hypergraph.adjacency@[0].targets@ == l.targets@,
+        a.len() + b.len() < usize::MAX,
+        is_strictification(s, l),
+    ensures node_iso(r, s, phi)
+{
+    let ss = r.h.s.sources.table@; let ts = r.h.t.sources.table@;
+    assert(l.hypergraph.edges@ =~= r.h.x@);
+    assert(psum(ss, 0) == 0 && psum(ts, 0) == 0);
+    assert forall|i: int, j: int| 0 <= i < 1 && 0 <= j < ss[i] implies l.hypergraph.adjacency@[i].sources@[j].0 == r.h.s.values.table@[#[trigger] seg_at(ss, i, j)] by {
+        assert(i == 0 && seg_at(ss, 0, j) == j); assert(l.sources@[j].0 == j); assert(r.h.s.values.table@[j] == j);
+    }
+    assert forall|i: int, j: int| 0 <= i < 1 && 0 <= j < ts[i] implies l.hypergraph.adjacency@[i].targets@[j].0 == r.h.t.values.table@[#[trigger] seg_at(ts, i, j)] by {
+        assert(i == 0 && seg_at(ts, 0, j) == j); assert(l.targets@[j].0 == a.len() + j); assert(r.h.t.values.table@[j] == a.len() + j);
+    }
+    assert(is_lax_of(l.hypergraph, r.h));
+    assert(ids(l.sources@) =~= r.s.table@ && ids(l.targets@) =~= r.t.table@);
+    lemma_roundtrip_open(r, l, s)
+}
+''')
